@@ -206,9 +206,7 @@ theorem updateW_keeps (x : Block) (rs : List (Block × Block × Block)) (hrs : R
         · exact ⟨i, by simp, by rw [hr.1]; exact h1⟩
         · exact ⟨dd, by simp, by rw [hr.2]; exact h1⟩
       · exact ⟨B, List.mem_append_left _ h, hd⟩
-    · split
-      · exact ih hrest _ ⟨B, List.mem_append_left _ hB, hd⟩
-      · exact ih hrest _ ⟨B, List.mem_append_left _ hB, hd⟩
+    · exact ih hrest _ ⟨B, List.mem_append_left _ hB, hd⟩
 
 /-- for every block that was split, a member of the new work list tells its two pieces apart -/
 theorem updateW_new (x : Block) (rs : List (Block × Block × Block)) (hrs : ReplOf x rs) :
@@ -235,15 +233,11 @@ theorem updateW_new (x : Block) (rs : List (Block × Block × Block)) (hrs : Rep
       simp only [updateW]
       split
       · exact updateW_keeps x rest hrest _ _ _ ⟨i, by simp, di⟩
-      · split
-        · exact updateW_keeps x rest hrest _ _ _ ⟨i, by simp, di⟩
-        · exact updateW_keeps x rest hrest _ _ _ ⟨dd, by simp, dd'⟩
+      · exact updateW_keeps x rest hrest _ _ _ ⟨i, by simp, di⟩
     · simp only [updateW]
       split
       · exact ih hrest _ r hr t t' ht ht' htx ht'x
-      · split
-        · exact ih hrest _ r hr t t' ht ht' htx ht'x
-        · exact ih hrest _ r hr t t' ht ht' htx ht'x
+      · exact ih hrest _ r hr t t' ht ht' htx ht'x
 
 theorem splitAll_replOf (x : Block) (p : List Block) : ReplOf x (splitAll x p).2 := by
   intro r hr
@@ -313,12 +307,12 @@ theorem mem_parentStates {d : Dfa} (h : TreeInv d) (a : Block) (l : Grapheme) (h
     q ∈ parentStates d a l ↔ ∃ t ∈ a, succ d q l = some t := by
   have key : parentStates d a l =
       a.foldl (fun x s => match ((d.inEdges s).find? (fun e =>
-        e.label.chars = l.chars && (e.label.max == l.max || e.label.min == l.min))).map Edge.src with
+        e.label.chars = l.chars && decide (e.label.min ≤ l.min) && decide (l.max ≤ e.label.max))).map Edge.src with
         | some v => insertSorted v x | none => x) [] := by
     simp only [parentStates]
     congr 1
     funext x s
-    cases (d.inEdges s).find? (fun e => e.label.chars = l.chars && (e.label.max == l.max || e.label.min == l.min)) <;> rfl
+    cases (d.inEdges s).find? (fun e => e.label.chars = l.chars && decide (e.label.min ≤ l.min) && decide (l.max ≤ e.label.max)) <;> rfl
   rw [key, mem_foldl_insertSorted']
   simp only [List.not_mem_nil, false_or, Option.map_eq_some_iff]
   constructor
@@ -327,12 +321,12 @@ theorem mem_parentStates {d : Dfa} (h : TreeInv d) (a : Block) (l : Grapheme) (h
     have h2 := List.find?_some he
     simp only [inEdges, List.mem_reverse, List.mem_filter, decide_eq_true_eq] at h1
     simp only [Bool.and_eq_true, decide_eq_true_eq] at h2
-    have hlab : e.label = l := Grapheme.Simple.eq_of_chars (h.simple e h1.1) hl h2.1
+    have hlab : e.label = l := Grapheme.Simple.eq_of_chars (h.simple e h1.1) hl h2.1.1
     exact ⟨s, hs, (succ_eq_some h e.src l s).mpr ⟨e, h1.1, rfl, hlab, h1.2⟩⟩
   · rintro ⟨t, ht, hsucc⟩
     obtain ⟨e, he, hsrc, hlab, hdst⟩ := (succ_eq_some h q l t).mp hsucc
     refine ⟨t, ht, ?_⟩
-    cases hf : (d.inEdges t).find? (fun e => e.label.chars = l.chars && (e.label.max == l.max || e.label.min == l.min)) with
+    cases hf : (d.inEdges t).find? (fun e => e.label.chars = l.chars && decide (e.label.min ≤ l.min) && decide (l.max ≤ e.label.max)) with
     | none =>
       rw [List.find?_eq_none] at hf
       have hmem : e ∈ d.inEdges t := by simp [inEdges, he, hdst]
